@@ -84,7 +84,7 @@ func (r *framesRule) PredOK(key string) bool {
 			return true
 		}
 	}
-	return false
+	return strings.HasPrefix(key, "v:")
 }
 
 func (r *framesRule) isBusWG(e *Engine, fc *FrameCtx, v ssa.Value) bool {
@@ -226,7 +226,7 @@ func (r *framesRule) OnInstr(e *Engine, st *State, fc *FrameCtx, in ssa.Instruct
 			}
 			return false
 		}
-		if tn, fld, _, ok := fieldOfAddr(mu); ok && r.R.ShardT != nil && tn == r.R.ShardT.Obj().Name() && fld == r.R.ShardMu && fc.fn == r.R.PublishFn {
+		if tn, fld, _, ok := fieldOfAddr(mu); ok && r.R.ShardT != nil && tn == r.R.ShardT.Obj().Name() && fld == r.R.ShardMu && !fc.InGoroutine() {
 			if s.Ph == 'a' {
 				s.Ph = 's'
 			}
